@@ -228,6 +228,70 @@ def long_refinement_case(case):
     return dict(rounds=len(free))
 
 
+def wide_case(case):
+    """very many answer keys, nearly all determined (pinned by constraints), a few free ones at chosen
+    positions: whatever solve() does per key must not depend on how many keys there are or where a key sits"""
+    from cspuz import Solver
+
+    n, free, ints = case["n"], set(case["free"]), case["ints"]
+    s = Solver()
+    keys = []
+    for i in range(n):
+        if ints and i % 3 == 0:
+            v = s.int_var(0, 3)
+            if i not in free:
+                s.ensure(v == i % 4)
+        else:
+            v = s.bool_var()
+            if i not in free:
+                s.ensure(v if i % 2 else ~v)
+        keys.append(v)
+        s.add_answer_key(v)
+    try:
+        with counted_z3(40 + 4 * len(free)):
+            res = s.solve(backend="z3")
+    except LoopBudget:
+        raise Failure("solve-does-not-terminate|wide", observed="more than %d solver calls" % (40 + 4 * len(free)))
+    except Exception as e:
+        raise Failure("exception|" + repo_frame_sig(e), observed="%s: %s" % (type(e).__name__, str(e)[:200]))
+    if res is not True:
+        raise Failure("solve-return-wrong|loop|wide", observed=res, expected=True)
+    for i, v in enumerate(keys):
+        if i in free:
+            want = None
+        elif ints and i % 3 == 0:
+            want = i % 4
+        else:
+            want = bool(i % 2)
+        if v.sol != want or (want is not None and type(v.sol) is not type(want)):
+            raise Failure(("undetermined-key-reported-value" if want is None else "determined-key-wrong-value") + "|loop|wide",
+                          observed=dict(key=i, sol=v.sol, n=n), expected=want)
+
+
+def shard_wide(arg):
+    from hypothesis import strategies as st
+
+    seed, n_cases = arg
+    stats = Stats()
+    strat = st.builds(
+        lambda n, fr, last, ints: dict(n=n, free=sorted({f % n for f in fr} | ({n - 1} if last else set())), ints=ints),
+        st.sampled_from([300, 1030, 1500, 2100, 2600]), st.lists(st.integers(0, 10 ** 6), max_size=3), st.booleans(), st.booleans())
+
+    def b(case):
+        stats.case(canon=case, nontrivial=len(case["free"]) >= 1 and case["n"] > 1024, classes=["wide-key-set"] +
+                   (["wide:free-key-beyond-1024"] if any(f >= 1024 for f in case["free"]) else []), sample=case)
+        wide_case(case)
+
+    fixed = dict(n=1100 + 100 * (seed % 8), free=[1050 + seed % 40], ints=bool(seed % 2))
+    try:
+        b(fixed)
+    except Failure as f:
+        stats.fail(f, fixed, "c02.wide")
+        return stats
+    hyp_search(stats, strat, b, seed=seed, max_examples=n_cases, check="c02.wide", rounds=2, shrink=False, round_floor=2)
+    return stats
+
+
 def shard_long(arg):
     from hypothesis import strategies as st
 
@@ -365,8 +429,11 @@ def run(ctx):
         ctx.stats.merge(r)
     for r in pmap(shard_long, [(ctx.seed * 1000 + 300 + i, 2 if ctx.quick() else 12) for i in range(8)]):
         ctx.stats.merge(r)
+    for r in pmap(shard_wide, [(ctx.seed * 1000 + 400 + i, 3 if ctx.quick() else 20) for i in range(8)]):
+        ctx.stats.merge(r)
     cl = ctx.stats.classes
     tot = max(1, ctx.stats.evaluations)
+    ctx.floor("wide key sets with a free key beyond position 1024", cl["wide:free-key-beyond-1024"], 4)
     ctx.floor("programs that need more than 64 refinement rounds", cl["many-refinement-rounds"], 6)
     ctx.floor("mixed decided/undecided share", round(cl["mixed-decided-undecided"] / tot, 3), 0.10)
     ctx.floor("integer keys share", round(cl["int-keys"] / tot, 3), 0.15)
@@ -380,5 +447,8 @@ def run(ctx):
 def replay(ctx, rep):
     if rep.get("check") == "c02.many-rounds":
         long_refinement_case(rep["case"])
+        return
+    if rep.get("check") == "c02.wide":
+        wide_case(rep["case"])
         return
     run_case(rep["case"])
